@@ -831,6 +831,25 @@ def run(res):
   common.bootstrap_pytype()
   from pytype.pytd import pytd_visitors  # pylint: disable=import-outside-toplevel
   thorough = res.tier == "thorough"
+  # ---- (4) history part: the real Loader driven through generated histories over generated stub packages
+  import c04_loader  # pylint: disable=import-outside-toplevel
+  res.rule += (" (d) stub packages (plain modules, packages with/without __init__.pyi, dotted sub-modules, references, import "
+               "cycles, missing modules/classes, a class named like a sub-module; outside the model's dialect also re-exports, "
+               "star imports, module aliases) x histories of 2-7 import_name requests incl. repeats and missing modules; "
+               "non-trivial iff >= 2 requests.")
+  res.assumptions += [
+      "Loader model (coq/Loader/Model.v): a stub dialect of classes and `v: pkg.mod.Class` references; the parser, "
+      "LookupLocalTypes/LookupBuiltins/AdjustTypeParameters/FillInLocalPointers are identities on it (observed on every case: "
+      "the real AST is projected and compared); builtins/typeshed loaders, pickled modules, imports_map, resolve_ast/load_file are "
+      "outside the model; set iteration in the sub-module loop is avoided by the dialect (one undefined name per dependency)",
+  ]
+  t0 = time.time()
+  ld_stats = c04_loader.run_leg(res, violation_once, 400 if thorough else 60, 60 if thorough else 8)
+  ld_stats["wall_s"] = round(time.time() - t0, 1)
+  res.extra["loader_history_leg"] = ld_stats
+  res.trusted_base.append("harness/props/c04_loader.py (stub generator, projection of the real AST/_modules/_import_name_cache, cases file)")
+  if os.environ.get("C04_ONLY") == "loader":       # development switch: the history leg alone
+    return "proof"
   drift = tables(res)
   deep = thorough or drift
   names = set(pytd_visitors.CanonicalOrderingVisitor().visit_class_names)
@@ -909,6 +928,9 @@ def replay(res, path):
     if None in rs:
       return 1
     return 1 if any(rs[0].get(k) != rs[1].get(k) for k in ("status", "pyi", "errors", "pickle")) else 0
+  if kind == "loader":
+    import c04_loader  # pylint: disable=import-outside-toplevel
+    return c04_loader.replay(rp)
   common.bootstrap_pytype()
   if kind == "errors":
     out = run_error_impl(rp["fields"])
